@@ -608,15 +608,21 @@ class Executor:
             return k(st)
         if isinstance(n, ast.Return):
             v = ev.eval(n.value) if n.value is not None else None
+            if getattr(self, "_finally_stack", None):
+                return self._unwind(st, lambda s: self._end("return", s, v))
             return self._end("return", st, v)
         if isinstance(n, ast.Raise):
             name = _exc_name(n.exc, st)
+            if getattr(self, "_finally_stack", None):
+                return self._unwind(st, lambda s: self._end("raise", s, name))
             return self._end("raise", st, name)
         if isinstance(n, ast.If):
             c = ev.eval(n.test)
             return self._branch(st, c, lambda s: self._exec_block(n.body, s, k), lambda s: self._exec_block(n.orelse, s, k))
         if isinstance(n, ast.Try):
             return self._exec_try(n, st, k)
+        if isinstance(n, (ast.Break, ast.Continue)) and getattr(self, "_finally_stack", None):
+            raise Outside("break / continue inside try/finally")
         if isinstance(n, ast.Break):
             if not getattr(self, "_break_ks", None):
                 raise Outside("break outside a loop")
@@ -639,9 +645,46 @@ class Executor:
         ts = getattr(self, "_try_stack", [])
         raise SymRaise(name, ts[-1] if ts else None)
 
+    def _unwind(self, st, then):
+        """run the pending `finally` blocks, innermost first, then `then` (a return / raise leaving the try statements)"""
+        stack = list(getattr(self, "_finally_stack", []))
+
+        def run(i, s):
+            if i < 0:
+                return then(s)
+            saved = self._finally_stack
+            self._finally_stack = stack[:i]
+            try:
+                return self._exec_block(stack[i], s, lambda s2: run(i - 1, s2))
+            finally:
+                self._finally_stack = saved
+        return run(len(stack) - 1, st)
+
+    def _exec_try_finally(self, n, st, k):
+        """try: body finally: final   (no handlers): the final block runs after the body on every way out of it - falling off the end,
+        `return`, `raise`, an exception of a modelled call; `break` / `continue` out of it are outside the subset"""
+        if not hasattr(self, "_finally_stack"):
+            self._finally_stack = []
+        self._finally_stack = self._finally_stack + [n.finalbody]
+        depth = len(self._finally_stack)
+
+        def after_body(s):
+            self._finally_stack = self._finally_stack[: depth - 1]
+            return self._exec_block(n.finalbody, s, k)
+
+        try:
+            return self._exec_block(n.body, st, after_body)
+        except SymRaise:
+            # an exception of a MODELLED call passing through the finally block: the state at the raise is not at hand here
+            raise Outside("exception of a modelled call passing through try/finally")
+        finally:
+            self._finally_stack = self._finally_stack[: depth - 1]
+
     def _exec_try(self, n, st, k):
+        if n.finalbody and not n.handlers and not n.orelse:
+            return self._exec_try_finally(n, st, k)
         if n.finalbody or n.orelse:
-            raise Outside("try/finally or try/else")
+            raise Outside("try/finally with handlers, or try/else")
         if not hasattr(self, "_try_stack"):
             self._try_stack = []
         token = object()
@@ -1811,7 +1854,7 @@ def _dotted(n):
     return None
 
 
-MODULE_ALIASES = {"np", "config", "math", "torch", "struct", "warnings", "os", "sys", "fftpack", "io", "re"}
+MODULE_ALIASES = {"np", "config", "math", "torch", "struct", "warnings", "os", "sys", "fftpack", "io", "re", "soundfile", "wave", "h5py"}
 BUILTIN_NAMES = {"len", "min", "max", "int", "float", "bool", "abs", "range", "isinstance", "tuple", "list", "sum",
                  "forall", "exists", "implies", "old", "ite", "count", "enumerate", "slice"}
 
